@@ -40,6 +40,13 @@ func (sp *symPath) resolve(v ssa.Value) (absVal, bool) {
 		if k, ok := constInt(c); ok {
 			return absVal{kind: "int", k: k}, true
 		}
+		if b, ok := constBool(c); ok {
+			// (a flag a helper hands back: "found", "known")
+			if b {
+				return absVal{kind: "int", k: 1}, true
+			}
+			return absVal{kind: "int", k: 0}, true
+		}
 	}
 	if a, ok := sp.env[v]; ok {
 		return a, true
@@ -72,6 +79,17 @@ func (sp *symPath) resolve(v ssa.Value) (absVal, bool) {
 }
 
 func (sp *symPath) decide(cond ssa.Value) (bool, bool) {
+	if isBoolType(cond.Type()) {
+		if a, ok := sp.resolve(cond); ok && a.kind == "int" {
+			return a.k != 0, true
+		}
+		if u, isU := cond.(*ssa.UnOp); isU && u.Op == token.NOT {
+			if v, ok := sp.decide(u.X); ok {
+				return !v, true
+			}
+			return false, false
+		}
+	}
 	switch x := cond.(type) {
 	case *ssa.BinOp:
 		if x.Op != token.EQL && x.Op != token.NEQ {
